@@ -107,6 +107,13 @@ def nameStep (line : String) : String :=
   | ["rel", ns, k] => match relNameS (d ns) (d k) with | some r => "R " ++ r | none => "KeyError"
   | ["clientns", ns] => "R " ++ clientNsS (d ns)
   | ["closure", k] => "R " ++ String.intercalate "," (sortS (nsClosureS (d k)))
+  | ["rebuild", k] =>
+      -- register k, register and unregister another key: the cache is rebuilt from the remaining key
+      let s0 : BB := ({} : BB).newClient "" |>.1
+      let s1 := (s0.register 0 (d k) (some .read) false none).1
+      let s2 := (s1.register 0 "/zz" (some .read) false none).1
+      let s3 := (s2.unregisterKey 0 "/zz" true).1
+      "R " ++ String.intercalate "," (sortS ((s3.clients[0]?.map Client.namespaces).getD []))
   | _ => "bad-op"
 
 end Bb
